@@ -141,8 +141,8 @@ Example C03_moveaxis_single_axis_nonvacuous :
 Proof. vm_compute. split; reflexivity. Qed.
 
 (* index::argsort (used by moveaxis to order the destinations), EVERY list of keys: the result is a
-   permutation of the positions 0..len-1 and the keys ascend along it.  (Stability - equal keys keep
-   their order - is compared with numpy.argsort(kind='stable') by the correspondence only.) *)
+   permutation of the positions 0..len-1 and the keys ascend along it.  (The order of equal keys is
+   not part of C03 - moveaxis sorts distinct destinations - and is neither proved nor judged.) *)
 Theorem C03_argsort : forall a : list Z,
   Permutation (argsort a) (seq 0 (length a))
   /\ StronglySorted (fun i j => nth i a 0 <= nth j a 0) (argsort a).
